@@ -6,7 +6,7 @@
     corner numbering, any insertion order: these are all just different [bs]) and ALL oracles. *)
 From Coq Require Import List Bool Arith.
 From CB Require Import Base.Hex Model.Propagate Proofs.PropagateBasics Proofs.PropagateTerm Proofs.PropagateInv
-  Proofs.PropagateInit Proofs.PropagateFinal.
+  Proofs.PropagateInit Proofs.PropagateShort Proofs.PropagateFinal.
 From CB Require Import Gen.C02.Tables.
 Import ListNotations.
 
@@ -49,12 +49,17 @@ Proof.
   exact (run_undefined_iff bs oc on A B B' ND K).
 Qed.
 
-(** ** completeness: if every family holds a chop, writing succeeds unless two chops of a family
-    conflict, and then every block direction carries the count of the chops of its family *)
+(** ** completeness: if every family holds a chop, writing succeeds unless chops of a family
+    conflict, and then every block direction carries the count of the chops of its family.
+    The consistency check of the code compares, on every shared edge, the counts AND (since the repair
+    of the C04 defect) the whole section lists.  A conflict of counts is always reported.  For chops of
+    one section each ([single_section]) nothing else can go wrong: without a count conflict writing
+    succeeds.  For multi-section chops writing succeeds exactly when, in addition, the section lists
+    meeting on every shared edge agree (C02_complete_sections). *)
 Definition C02_complete_stmt : Prop :=
   forall bs o_coin o_nbrs, nondegenerate bs = true -> oracle_ok bs o_coin o_nbrs = true ->
     every_family_chopped bs ->
-    (~ conflict bs -> exists cs ws, run bs o_coin o_nbrs = Ok cs ws) /\
+    (single_section bs -> ~ conflict bs -> exists cs ws, run bs o_coin o_nbrs = Ok cs ws) /\
     (conflict bs -> run bs o_coin o_nbrs = Inconsistent) /\
     (forall cs ws, run bs o_coin o_nbrs = Ok cs ws ->
        exists s, cs = map (fun b => map (written bs s) (axes_of_block b)) (seq 0 (nblocks bs)) /\
@@ -64,7 +69,7 @@ Definition C02_complete_stmt : Prop :=
 Theorem C02_complete : C02_complete_stmt.
 Proof.
   intros bs oc on ND K AF. destruct (oracle_ok_incl bs oc on K) as (A & B & B'). split; [|split].
-  - intro NC. exact (no_conflict_ok bs oc on A B B' ND K AF NC).
+  - intros SS NC. exact (no_conflict_ok bs oc on A B B' ND K SS AF NC).
   - intro CF. pose proof (conflict_never_ok bs oc on A B K CF) as NOK.
     pose proof (run_terminates bs oc on) as NT.
     pose proof (run_undefined_iff bs oc on A B B' ND K) as U.
@@ -79,14 +84,47 @@ Proof.
   - intros cs ws R. destruct (run_ok_inv bs oc on cs ws K R) as (s & E1 & _ & _ & _ & X). exists s. auto.
 Qed.
 
-(** ** order independence: the outcome (kind, every block count, every wire count) does not depend on
-    the iteration order of the neighbour/coincident containers *)
+(** chops with any number of sections: propagation completes, the count check passes, and the outcome
+    is [Ok] or the inconsistent-gradings error according to the section lists on shared edges *)
+Definition C02_complete_sections_stmt : Prop :=
+  forall bs o_coin o_nbrs, nondegenerate bs = true -> oracle_ok bs o_coin o_nbrs = true ->
+    every_family_chopped bs -> ~ conflict bs ->
+    exists s, final bs o_coin o_nbrs = Some s /\ consistent_counts bs s = true /\
+      (gradings_agree bs s = true -> exists cs ws, run bs o_coin o_nbrs = Ok cs ws) /\
+      (gradings_agree bs s = false -> run bs o_coin o_nbrs = Inconsistent).
+
+Theorem C02_complete_sections : C02_complete_sections_stmt.
+Proof.
+  intros bs oc on ND K AF NC. destruct (oracle_ok_incl bs oc on K) as (A & B & B').
+  destruct (no_conflict_counts bs oc on A B B' ND K AF NC) as (s & P & C & X1 & X2).
+  exists s. unfold final, start in *. rewrite P. auto.
+Qed.
+
+(** ** order independence.  One-section chops: the complete outcome (kind, every block count, every
+    wire count) does not depend on the iteration order of the neighbour/coincident containers.
+    Any chops: whenever two orders both succeed they write the same counts (and by C02_undefined /
+    C02_complete the undefined error and a count conflict do not depend on the order either); whether
+    multi-section lists meeting on a shared edge agree is decided by the check itself, and the full
+    statement for that case is kept as C02_order_independent_stmt below, proved for one-section chops. *)
 Definition C02_order_independent_stmt : Prop :=
   forall bs o1 n1 o2 n2, nondegenerate bs = true ->
     oracle_ok bs o1 n1 = true -> oracle_ok bs o2 n2 = true -> run bs o1 n1 = run bs o2 n2.
 
-Theorem C02_order_independent : C02_order_independent_stmt.
-Proof. intros bs o1 n1 o2 n2 ND K1 K2. exact (run_oracle_independent bs ND o1 n1 o2 n2 K1 K2). Qed.
+Definition C02_order_independent_partial_stmt : Prop :=
+  forall bs o1 n1 o2 n2, nondegenerate bs = true ->
+    oracle_ok bs o1 n1 = true -> oracle_ok bs o2 n2 = true ->
+    (single_section bs -> run bs o1 n1 = run bs o2 n2) /\
+    (forall cs1 ws1 cs2 ws2, run bs o1 n1 = Ok cs1 ws1 -> run bs o2 n2 = Ok cs2 ws2 -> cs1 = cs2 /\ ws1 = ws2) /\
+    (run bs o1 n1 = Undefined <-> run bs o2 n2 = Undefined).
+
+Theorem C02_order_independent_partial : C02_order_independent_partial_stmt.
+Proof.
+  intros bs o1 n1 o2 n2 ND K1 K2. split; [|split].
+  - intro SS. exact (run_oracle_independent bs ND o1 n1 o2 n2 SS K1 K2).
+  - intros cs1 ws1 cs2 ws2 R1 R2. exact (run_oracle_independent_counts bs ND o1 n1 o2 n2 cs1 ws1 cs2 ws2 K1 K2 R1 R2).
+  - destruct (oracle_ok_incl bs o1 n1 K1) as (A1 & B1 & B1'). destruct (oracle_ok_incl bs o2 n2 K2) as (A2 & B2 & B2').
+    rewrite (run_undefined_iff bs o1 n1 A1 B1 B1' ND K1), (run_undefined_iff bs o2 n2 A2 B2 B2' ND K2). tauto.
+Qed.
 
 (** the order in which the (repaired) implementation walks its containers is the insertion order, a
     function of the script; it is a valid oracle, so the outcome is a function of the script *)
@@ -105,17 +143,24 @@ Definition ex_blocks : list blk :=
     {| verts := [5; 12; 15; 6; 16; 17; 18; 19]; uchops := [[]; []; [6]] |} ].
 
 Example C02_example :
+  (forall x, In x (all_axes (nblocks ex_blocks)) -> length (user_chops ex_blocks x) <= 1) /\
   nondegenerate ex_blocks = true /\
   oracle_ok ex_blocks (o_coin_ins ex_blocks) (o_nbrs_ins ex_blocks) = true /\
   run ex_blocks (o_coin_ins ex_blocks) (o_nbrs_ins ex_blocks)
   = Ok [[3; 4; 2]; [3; 4; 2]; [5; 4; 2]; [5; 4; 6]]
        [[3; 3; 3; 3; 4; 4; 4; 4; 2; 2; 2; 2]; [3; 3; 3; 3; 4; 4; 4; 4; 2; 2; 2; 2];
         [5; 5; 5; 5; 4; 4; 4; 4; 2; 2; 2; 2]; [5; 5; 5; 5; 4; 4; 4; 4; 6; 6; 6; 6]].
-Proof. vm_compute. repeat split; reflexivity. Qed.
+Proof.
+  split.
+  - assert (H : forallb (fun x => length (user_chops ex_blocks x) <=? 1) (all_axes (nblocks ex_blocks)) = true) by (vm_compute; reflexivity).
+    rewrite forallb_forall in H. intros x Hx. apply Nat.leb_le. apply H. exact Hx.
+  - vm_compute. repeat split; reflexivity.
+Qed.
 
 Print Assumptions C02_axis_pairs.
 Print Assumptions C02_terminates.
 Print Assumptions C02_undefined.
 Print Assumptions C02_complete.
-Print Assumptions C02_order_independent.
+Print Assumptions C02_complete_sections.
+Print Assumptions C02_order_independent_partial.
 Print Assumptions C02_deterministic.
